@@ -123,6 +123,10 @@ def _round_half_away(x, d):
     """x (float) rounded to d decimals (d may be negative), ties away from zero, computed on the exact binary value"""
     if isnan(x) or isinf(x):
         return x
+    if d > 400:
+        return x
+    if d < -400:
+        return math.copysign(0.0, x)
     if abs(x) * 10.0 ** d >= 2.0 ** 53:
         # every digit that could be rounded away is already gone; Trino's own implementation goes through a 64-bit integer here and
         # does not return the mathematical value, so neither answer can be called "Trino compatible"
@@ -157,6 +161,10 @@ def _trunc_d(x):
 def _trunc_dn(x, n):
     if isnan(x) or isinf(x):
         return x
+    if n > 400:
+        return x
+    if n < -400:
+        return math.copysign(0.0, x)
     q = decimal.Decimal(1).scaleb(-n)
     r = (decimal.Decimal(x) / q).quantize(decimal.Decimal(1), rounding=decimal.ROUND_DOWN) * q
     return float(r)
@@ -400,15 +408,13 @@ def _width_bucket(x, b1, b2, n):
             return i64(n + 1)
         return int(math.floor(n * (x - b1) / (b2 - b1))) + 1
     # descending bounds: the SQL-standard reading (PostgreSQL) and Trino's mirror-image computation agree except exactly on bucket edges
-    if isinf(x):
-        return 0 if x > 0 else i64(n + 1)
-    pos = n * (b1 - x) / (b1 - b2)
-    if x == b1 or x == b2 or pos == math.floor(pos):
-        raise Unspecified('operand on a bucket edge of a descending histogram')
     if x > b1:
         return 0
     if x < b2:
         return i64(n + 1)
+    pos = n * (b1 - x) / (b1 - b2)
+    if x == b1 or x == b2 or pos == math.floor(pos):
+        raise Unspecified('operand on a bucket edge of a descending histogram')
     return int(math.floor(pos)) + 1
 
 
